@@ -1,6 +1,6 @@
 #!/bin/bash
 # process_seed.sh <prop> [suffix]: run the quick check against /tmp/seed-<prop>, confirm the seed, write seeded/<prop>-<suffix>/meta.json
-p=$1; suf=${2:-a}; d=/tmp/seed-$p; name=$p-$suf
+p=$1; suf=${2:-a}; d=/tmp/seed-$p; [ "$suf" != a ] && d=/tmp/seed-$p$suf; name=$p-$suf
 mkdir -p /tmp/seedres
 # rebase the seed onto /repo HEAD first so that the check runs against HEAD + patch
 ( cd $d && git status --short | awk '$1=="??" && $2 ~ /_test\.go$/ {print $2}' | xargs -r rm -f; git checkout -q -- . ; git checkout -q --detach $(git -C /repo rev-parse HEAD) ; git apply _seeded/patch.diff ) || echo "REBASE FAILED $p" >> /tmp/seedres/summary.txt
